@@ -1,5 +1,5 @@
 \* emission (thorough): every tree of <= 4 nodes over one composite class, grids none/g1/g1b, 2 cells
-CONSTANTS MaxNodes = 4  CompTypes = {"A"}  Grids = {"none", "g1", "g1b"}  NCells = 2  MaxLevel = 9
+CONSTANTS MaxNodes = 4  CompTypes = {"A"}  Grids = {"none", "g1", "g1b", "g0"}  NCells = 2  MaxLevel = 9
 INIT Init
 NEXT Next
 CONSTRAINT Bound
